@@ -179,14 +179,21 @@ func (this *Hnsw) Remove(id uuid.UUID) error {
 		return err
 	}
 
-	currEntrypoint := atomic.LoadPointer(&this.entrypoint)
-	if (*hnswVertex)(currEntrypoint) == vertex {
+	// Hand the entry point over while it is this vertex - or, with concurrent writers, a vertex that was
+	// tombstoned after it had been chosen
+	for {
+		currEntrypoint := atomic.LoadPointer(&this.entrypoint)
+		current := (*hnswVertex)(currEntrypoint)
+		if current == nil || !current.isDeleted() {
+			break
+		}
+
 		minDistance := math.MaxFloat
 		var closestNeighbor *hnswVertex = nil
 
-		for l := vertex.level; l >= 0; l-- {
-			vertex.edgeMutexes[l].RLock()
-			for neighbor, distance := range vertex.edges[l] {
+		for l := current.level; l >= 0; l-- {
+			current.edgeMutexes[l].RLock()
+			for neighbor, distance := range current.edges[l] {
 				if neighbor.isDeleted() {
 					continue
 				}
@@ -195,7 +202,7 @@ func (this *Hnsw) Remove(id uuid.UUID) error {
 					closestNeighbor = neighbor
 				}
 			}
-			vertex.edgeMutexes[l].RUnlock()
+			current.edgeMutexes[l].RUnlock()
 
 			if closestNeighbor != nil {
 				break
